@@ -223,8 +223,8 @@ func SSetPut(st SSet, key string) {
 	dict.Add(st.Dict, key, true)
 }
 
-func collectTVarFTypeWithSet(visited SSet, ft FType) []string {
-	recurse := (func(_r0 FType) []string { return collectTVarFTypeWithSet(visited, _r0) })
+func collectTVarFTypeWithSet(visited SSet, recs []string, ft FType) []string {
+	recurse := (func(_r0 FType) []string { return collectTVarFTypeWithSet(visited, recs, _r0) })
 	switch _v9 := (ft).(type) {
 	case FType_FTypeVar:
 		tv := _v9.Value
@@ -240,14 +240,22 @@ func collectTVarFTypeWithSet(visited SSet, ft FType) []string {
 		return recurse(fa.RecType)
 	case FType_FRecord:
 		rt := _v9.Value
-		ri := lookupRecInfo(rt)
-		fres := frt.Pipe(frt.Pipe(ri.Fields, (func(_r0 []NameTypePair) []FType {
-			return slice.Map(func(_v1 NameTypePair) FType {
-				return _v1.Ftype
-			}, _r0)
-		})), (func(_r0 []FType) []string { return slice.Collect(recurse, _r0) }))
-		tres := frt.Pipe(rt.Targs, (func(_r0 []FType) []string { return slice.Collect(recurse, _r0) }))
-		return slice.Append(fres, tres)
+		rkey := rtToKey(rt)
+		return frt.IfElse(slice.Forany(func(k string) bool {
+			return frt.OpEqual(k, rkey)
+		}, recs), (func() []string {
+			return slice.New[string]()
+		}), (func() []string {
+			recurseIn := (func(_r0 FType) []string { return collectTVarFTypeWithSet(visited, slice.PushLast(rkey, recs), _r0) })
+			ri := lookupRecInfo(rt)
+			fres := frt.Pipe(frt.Pipe(ri.Fields, (func(_r0 []NameTypePair) []FType {
+				return slice.Map(func(_v1 NameTypePair) FType {
+					return _v1.Ftype
+				}, _r0)
+			})), (func(_r0 []FType) []string { return slice.Collect(recurseIn, _r0) }))
+			tres := frt.Pipe(rt.Targs, (func(_r0 []FType) []string { return slice.Collect(recurse, _r0) }))
+			return slice.Append(fres, tres)
+		}))
 	case FType_FUnion:
 		ut := _v9.Value
 		uname := utName(ut)
@@ -271,7 +279,7 @@ func collectTVarFTypeWithSet(visited SSet, ft FType) []string {
 
 func collectTVarFType(ft FType) []string {
 	visited := NewSSet()
-	return collectTVarFTypeWithSet(visited, ft)
+	return collectTVarFTypeWithSet(visited, slice.New[string](), ft)
 }
 
 func collectTVarStmt(collE func(Expr) []string, stmt Stmt) []string {
@@ -418,8 +426,8 @@ func collectTVarBlockFacade(b Block) []string {
 	return collectTVarBlock(collE, collS, b)
 }
 
-func transTVFTypeWithSet(visited SSet, transTV func(TypeVar) FType, ftp FType) FType {
-	recurse := (func(_r0 FType) FType { return transTVFTypeWithSet(visited, transTV, _r0) })
+func transTVFTypeWithSet(visited SSet, recs []string, transTV func(TypeVar) FType, ftp FType) FType {
+	recurse := (func(_r0 FType) FType { return transTVFTypeWithSet(visited, recs, transTV, _r0) })
 	switch _v17 := (ftp).(type) {
 	case FType_FTypeVar:
 		tv := _v17.Value
@@ -445,7 +453,15 @@ func transTVFTypeWithSet(visited SSet, transTV func(TypeVar) FType, ftp FType) F
 		return frt.Pipe(ParamdType{Name: pt.Name, Targs: nts}, New_FType_FParamd)
 	case FType_FRecord:
 		rt := _v17.Value
-		return frt.Pipe(transRecType(recurse, rt), New_FType_FRecord)
+		rkey := rtToKey(rt)
+		return frt.IfElse(slice.Forany(func(k string) bool {
+			return frt.OpEqual(k, rkey)
+		}, recs), (func() FType {
+			return ftp
+		}), (func() FType {
+			recurseIn := (func(_r0 FType) FType { return transTVFTypeWithSet(visited, slice.PushLast(rkey, recs), transTV, _r0) })
+			return frt.Pipe(transRecType(recurseIn, rt), New_FType_FRecord)
+		}))
 	case FType_FUnion:
 		ut := _v17.Value
 		uname := utName(ut)
@@ -478,7 +494,7 @@ func transTVFTypeWithSet(visited SSet, transTV func(TypeVar) FType, ftp FType) F
 
 func transTVFType(transTV func(TypeVar) FType, ftp FType) FType {
 	visited := NewSSet()
-	return transTVFTypeWithSet(visited, transTV, ftp)
+	return transTVFTypeWithSet(visited, slice.New[string](), transTV, ftp)
 }
 
 func transTVVar(transTV func(TypeVar) FType, v Var) Var {
